@@ -265,7 +265,7 @@ theorem devEnv_reads (p p' : PassIn) (w w' : W) (nd : Bytes × Dev)
   have hpp : ∀ s : Pm.Dev2.Store, Pm.Dev2.prePoll { nd.2 with args := s } = Pm.Dev2.prePoll nd.2 := fun _ => rfl
   have hmk : mkDevEnv w { nd.2 with args := w.store } p.now p.con p.soe p.envs
       = mkDevEnv w' { nd.2 with args := w'.store } p'.now p'.con p'.soe p'.envs := by
-    unfold mkDevEnv
+    unfold mkDevEnv maxCalls
     dsimp only
     rw [h1, h2, h3, hn, hc, he]
     cases hfd : nd.2.fd with
